@@ -396,13 +396,33 @@ fn single_reference_subjects(mut c: SeqCase) -> SeqCase {
   c
 }
 
+/// A shared connection (publish().ref_count() / replay().ref_count()) serves its subscribers
+/// through a Subject, i.e. in an order nothing specifies (HashMap). When one connection can
+/// have several subscribers at the same time - the node occurs twice, or below an operator
+/// that subscribes its inner pipelines once per item / attempt - the items of one instant
+/// may arrive in either order: they are compared as a multiset then.
+pub(crate) fn conn_shared_by_several(root: &Node) -> bool {
+  let mut conns = 0;
+  root.walk(&mut |n| {
+    if matches!(n, Node::Un(Op::RefCount, _) | Node::Un(Op::ReplayConn, _)) {
+      conns += 1;
+    }
+  });
+  let nested = root.has_op(&|n| matches!(n, Node::FlatMap(_, _) | Node::Resume(_, _) | Node::Un(Op::Retry(_), _) | Node::Un(Op::RetryWhen(_), _)));
+  conns >= 2 || (conns >= 1 && nested)
+}
+
 fn has_comb(n: &Node) -> bool {
   n.has_op(&|x| matches!(x, Node::Nary(_, _) | Node::Gate(_, _, _) | Node::FlatMap(_, _) | Node::ReadySetGo(_, _, _)))
 }
 
 pub(crate) fn c03_check(_ctx: &Ctx, c: &SeqCase) -> Report {
-  let out = diff(c, DiffOpts::default());
+  let unordered_items = conn_shared_by_several(&c.case.root);
+  let out = diff(c, DiffOpts { unordered_items, ..Default::default() });
   let mut rep = out.rep;
+  if unordered_items {
+    rep.classes.push("shared-connection-with-several-subscribers(items as multiset)".into());
+  }
   for k in &c.case.hots {
     if *k != HotKind::Harness {
       rep.classes.push(format!("hot-input:{:?}", k).split('(').next().unwrap().to_string());
@@ -741,7 +761,7 @@ fn c14_large_check(ctx: &Ctx, c: &SeqCase) -> Report {
 }
 
 pub(crate) fn c04_check(_ctx: &Ctx, c: &SeqCase) -> Report {
-  let out = diff(c, DiffOpts { check_persub_counts: true, ..Default::default() });
+  let out = diff(c, DiffOpts { check_persub_counts: true, unordered_items: conn_shared_by_several(&c.case.root), ..Default::default() });
   let mut rep = out.rep;
   if let (Some(r), Some(m)) = (&out.real, &out.model) {
     // non-trivial: an error passed through >= 1 operator with >= 1 item before it, or a
